@@ -8,18 +8,27 @@ PROP = dict(
           "end); exhaustive grid n in 0..8 (thorough: 0..16, 63, 64) x every accessor (pgetv, pget<T>, the 26 typed pget_*/get_* incl. "
           "24/48-bit, peek, getv, read/readx/pread/preadx in string and buffer forms, sub/subx, sub_bits/subx_bits, skip, skip_if, "
           "get_line, get_cstr, pget_cstr, truncate) x all (offset, size) pairs of the boundary set {0,1,2,3,4,6,8,n-2..n+2,2^31,2^32-1,"
-          "2^32,2^63-1,2^63,2^63+1,2^64-9..2^64-1}, plus rapidcheck cases with n in 0..64 and random/wrapping arguments. hist: cursor "
-          "histories of 1..30 such calls incl. go() and truncate() with a model of cursor and length. bw: BufferWriter over a guarded "
+          "2^32,2^63-1,2^63,2^63+1,2^64-9..2^64-1}, plus rapidcheck cases with n in 0..64 and random/wrapping arguments. Readers are built "
+          "by any of the six constructor forms ((pointer, size), const std::string&, shared_ptr<string>, each with and without the initial-offset "
+          "argument): the grid above uses (pointer, size); a second grid runs n in 0..8 x the five other forms x every accessor x all pairs of "
+          "{0,1,n-1,n,n+1,2^64-1}; random cases draw the form. Sub-readers of sub-readers (\"sub-readers never extend beyond their parent\" for a "
+          "parent that is itself a sub-reader): a case may step into the reader that sub/subx just returned, the model then tracks the absolute "
+          "window inside the original data; exhaustive for n in 0..4 x three constructors x every pair of the four sub/subx forms x every "
+          "(offset, size) in 0..n+1 at both levels, random in pos (accessor called on a sub-reader of depth 1..2) and hist. hist: cursor "
+          "histories of 1..30 such calls incl. go(), truncate() and steps into sub-readers, with a model of cursor, length and window. bw: BufferWriter over a guarded "
           "buffer of capacity 0..64 (pwrite/write/put_*/pput_*, grid + random). sw: StringWriter appends and pput_* at offsets <= 4096 "
           "or >= 2^63. Non-trivial: a call whose offset or size lies within +-2 of n, 2^63 or 2^64, whose end lies within +-2 of n, whose "
-          "offset+size wraps, or a get_line on an unterminated last line; distinct by (accessor, n, offset, size) for pos and by case "
+          "offset+size wraps, a get_line on an unterminated last line, or a sub-reader taken from a sub-reader whose window does not start at the "
+          "first byte of the original data; distinct by (constructor, accessor(s), n, offset, size) for pos and by case "
           "encoding (hash) for the others."),
     assumptions=["StringWriter::pput offsets are <= 4160 or >= 2^63: offsets in between would really allocate up to 2^63 bytes, which ASan's operator new answers by aborting (an artefact of the sanitizer build, not of phosg); the design's lower limit 2^62 was raised to 2^63 because std::string::max_size() is 2^63-1 here",
                  "BitReader reads are unchecked by design: only the extent (size) and content of bit sub-readers is checked",
                  "get<T>(advance, size) / pget<T>(offset, size) are called with size >= sizeof(T) only",
                  "destination buffers handed to read/pread(void*) hold exactly the in-range prefix, those handed to readx/preadx(void*) and the source handed to pwrite/write/skip_if hold min(size, n+1) bytes when the request is out of range (a correct implementation validates before copying)",
+                 "where the empty reader that a clamping sub() returns points to is not specified (pointer identity of pgetv/getv/peek is not checked inside it)",
+                 "the const std::string& and shared_ptr<string> constructors read a std::string's buffer, which ASan guards less exactly than the exactly-sized heap block of the (pointer, size) form; values, exceptions and extents are compared all the same",
                  "truncate() below the cursor counts, like go(), as an explicit way of placing the cursor beyond the end"],
-    min_evaluations_quick=900000, min_evaluations_thorough=3000000,
+    min_evaluations_quick=1000000, min_evaluations_thorough=3000000,
     technique=("property-based testing: exhaustive boundary grid + rapidcheck cursor histories against a 128-bit-arithmetic slice model, "
                "on exactly-sized heap blocks under AddressSanitizer / UBSan(pointer-overflow, bounds)"),
     level_text=("Exploration: every case calls the real accessors (ASan+UBSan build of the working tree) and compares returned bytes, "
